@@ -46,6 +46,8 @@ AbsP(steps) == [t |-> "path", abs |-> TRUE, steps |-> steps]
 Dos  == Step("descendant-or-self", TypeT("node"), <<>>)
 Ch(n) == Step("child", NameT(n), <<>>)
 AtS(n) == Step("attribute", NameT(n), <<>>)
+Rel(steps) == [t |-> "path", abs |-> FALSE, steps |-> steps]
+Fn0(f) == [t |-> "fn", name |-> f, args |-> <<>>]
 Raw(s) == [t |-> "raw", text |-> s]          \* an expression given as text (not an expression at all)
 
 Exprs == <<
@@ -67,7 +69,14 @@ Exprs == <<
   Bin("|", AbsP(<<Dos, AtS("x")>>), AbsP(<<Dos, Ch("a")>>)),    \* 16  attributes and elements together
   Raw(<<47, 47, 91>>),                                 \* 17  "//["  syntax error
   Raw(<<>>),                                           \* 18  ""     empty expression
-  Fn1("nofunc", NumL(1))                               \* 19  unknown function
+  Fn1("nofunc", NumL(1)),                              \* 19  unknown function
+  \* 20  //b[c[@y] or position()=last()]   an inner step whose predicate empties it, then last() in the outer scope
+  AbsP(<<Dos, Step("child", NameT("b"),
+                   <<Bin("or", Rel(<<Step("child", NameT("c"), <<Rel(<<AtS("y")>>)>>)>>),
+                               Bin("=", Fn0("position"), Fn0("last")))>>)>>),
+  \* 21  //b[not(c[@y])][last()]           the same inner step inside a function, then a second predicate
+  AbsP(<<Dos, Step("child", NameT("b"),
+                   <<Fn1("not", Rel(<<Step("child", NameT("c"), <<Rel(<<AtS("y")>>)>>)>>)), Fn0("last")>>)>>)
 >>
 
 \* ---------------------------------------------------------------------------------------------
@@ -86,7 +95,9 @@ Frags == <<
   Frag(Cp("c") \o <<QU>> \o Cp("d"), TRUE, {"text"}, 0, Cp("c") \o <<QU>> \o Cp("d"), FALSE),     \* 10 c"d
   Frag(<<LT>> \o Cp("z") \o <<SL, GT, LT>> \o Cp("z") \o <<SL, GT>>, TRUE, {"elem"}, 2, <<>>, FALSE), \* 11 <z/><z/>
   Frag(<<LT>> \o Cp("z") \o <<GT>> \o Cp("t") \o <<LT>> \o Cp("y") \o <<SL, GT, LT, SL>> \o Cp("z") \o <<GT>>,
-       TRUE, {"elem"}, 1, <<>>, FALSE)                                                            \* 12 <z>t<y/></z>
+       TRUE, {"elem"}, 1, <<>>, FALSE),                                                           \* 12 <z>t<y/></z>
+  Frag(Cp("c") \o <<QU>> \o Cp("d") \o <<39>> \o Cp("e"), TRUE, {"text"}, 0,
+       Cp("c") \o <<QU>> \o Cp("d") \o <<39>> \o Cp("e"), FALSE)                                    \* 13 c"d'e  (both quotes)
 >>
 
 ValOf(di, ei) == IF Exprs[ei].t = "raw" THEN Err ELSE EvalTop(Docs[di], Exprs[ei], <<>>)
